@@ -729,5 +729,46 @@ func buildCases(quick bool) []protox.Case {
 	cs = append(cs, httpCases(quick)...)
 	cs = append(cs, apiCases(quick)...)
 	cs = append(cs, clientCases(quick)...)
+	cs = append(cs, rtspAuthCases(quick)...)
+	return cs
+}
+
+// rtspAuthCases: with simple-auth on for RTSP subscribers, every sequence of <= 3 requests over
+// {DESCRIBE with the right secret, without one, with a wrong one, for another stream, OPTIONS} on one
+// connection while the stream is not published yet (accepted DESCRIBEs wait for the SDP); then a
+// publisher arrives and the waiting sessions are fed.
+func rtspAuthCases(quick bool) []protox.Case {
+	var cs []protox.Case
+	alpha := []string{"Dgood", "Dnone", "Dwrong", "Dother", "Opt"}
+	var rec func(cur []string)
+	rec = func(cur []string) {
+		if len(cur) > 0 {
+			var its [][]byte
+			for i, k := range cur {
+				uri := rtspUri
+				switch k {
+				case "Dgood":
+					uri += "?lal_secret=$SECRET"
+				case "Dwrong":
+					uri += "?lal_secret=0123456789abcdef0123456789abcdef"
+				case "Dother":
+					uri = "rtsp://h/live/other?lal_secret=$SECRET"
+				}
+				if k == "Opt" {
+					its = append(its, ref.RtspRequest("OPTIONS", rtspUri, i+1, nil, nil))
+				} else {
+					its = append(its, ref.RtspRequest("DESCRIBE", uri, i+1, map[string]string{"Accept": "application/sdp"}, nil))
+				}
+			}
+			cs = append(cs, mk("rtspauth", "sub", "describe-sequence", strings.Join(cur, " "), packItems(its...), -1))
+		}
+		if len(cur) == 3 {
+			return
+		}
+		for _, k := range alpha {
+			rec(append(append([]string{}, cur...), k))
+		}
+	}
+	rec(nil)
 	return cs
 }
